@@ -327,6 +327,7 @@ class GenOpts:
     mixin_base: str = "DataClassDictMixin"
     coq_only: bool = False        # stay inside TyModel.sty
     unpacked: bool = True         # tuples with an unpacked segment (Tuple[a, Unpack[Tuple[b, ...]], c])
+    abstract: bool = True         # Coq stream: Sequence / Mapping / Deque / OrderedDict / Counter / ChainMap / DefaultDict / MappingProxyType
     configs: bool = False         # aliases + serialize_by_alias / allow_deserialization_not_by_alias / forbid_extra_keys
     spellings: bool = True        # PEP 604 / None-first unions, builtin generics, Annotated wrappers, Final fields
 
@@ -434,7 +435,7 @@ class SchemaGen:
             # a bare None annotation is rejected or treated specially in most positions (None-typed
             # positions never read their input); it is reachable only through Optional here
             return self.scalar()
-        choices = list(self.o.containers if not self.o.coq_only else COQ_CONTAINERS)
+        choices = list(self.o.containers if not self.o.coq_only else (COQ_CONTAINERS if self.o.abstract else COQ_CONTAINERS[:7]))
         if self.o.classes:
             choices += ["data", "data"]
         if self.o.named:
